@@ -636,6 +636,15 @@ class SDyad:
     def __bool__(self):
         return bool(compare('!=', self, 0))
 
+    def __int__(self):
+        m = int(self.m)            # concretises (forks) when symbolic
+        return int(fractions.Fraction(m, 1 << self.k))
+
+    __index__ = __int__
+
+    def is_integer(self):
+        return self.k == 0
+
     def __abs__(self):
         return SDyad(abs(self.m) if not is_sym(self.m) else self.m.__abs__(), self.k)
 
